@@ -111,7 +111,7 @@ PROPS = {
     "C11": {
         "level": "exploration",
         "interpreters": PRODUCERS,
-        "rule": "all 2^18 subsets of the flag bits CPython defines (dis.COMPILER_FLAG_NAMES + __future__ compiler flags, read from CPython, not from the library) converted to names and back, in chunks of 64 words each run in a freshly forked child (enum's pseudo-member cache); every word with exactly one of the 14 unknown bits x subsets of known flags of size <=2 (thorough: x all 2^18); header alterations of 13 base code objects: co_flags XOR every mask of Hamming weight <=2 over 32 bits (529 each), and every (argcount, posonlyargcount, kwonlyargcount) triple in 0..min(len(varnames),4) x {0, each single flag bit} that types.CodeType accepts; and every name-carrying header entry (each variable/cell/free/global name, co_name, co_filename) replaced in turn by '', a non-identifier and a lone surrogate. Oracle: from_code raises or to_code() is strictly identical to the altered object. distinct_nontrivial = distinct flag words + distinct (base, alteration) pairs built.",
+        "rule": "all 2^18 subsets of the flag bits CPython defines (dis.COMPILER_FLAG_NAMES + __future__ compiler flags, read from CPython, not from the library) converted to names and back, in chunks of 64 words each run in a freshly forked child (enum's pseudo-member cache); every word with exactly one of the 14 unknown bits x subsets of known flags of size <=2 (thorough: x all 2^18); header alterations of 16 base code objects: co_flags XOR every mask of Hamming weight <=2 over 32 bits (529 each), and every (argcount, posonlyargcount, kwonlyargcount) triple in 0..min(len(varnames),4) x {0, each single flag bit} that types.CodeType accepts; and every name-carrying header entry (each variable/cell/free/global name, co_name, co_filename) replaced in turn by '', a non-identifier and a lone surrogate. Oracle: from_code raises or to_code() is strictly identical to the altered object. distinct_nontrivial = distinct flag words + distinct (base, alteration) pairs built.",
         "assumptions": TRUST,
         "required_reach": {"quick": ["word-ok", "unknown-bit-raises", "reproduced", "from_code-raises"]},
         "shards": {"quick": 16, "thorough": 16},
@@ -170,7 +170,7 @@ PROPS = {
     "C16": {
         "level": "exploration",
         "interpreters": PRODUCERS,
-        "rule": "S-CLI completely: presence/absence of each program source {file, -c, -e, -m} (16 combinations: 4 valid, 12 usage errors) x all 2^5 subsets of {--dis, --dis-after, --source, --no-normalize, --json} x 8 programs (empty; two lines; nested functions/closure/class; NaN/inf/-0.0/bytes/surrogate/complex/huge-int/tuple/frozenset constants; 300 constants; non-ASCII; async/comprehension/try/while; lines >255 apart) = 4096 argv vectors per interpreter, each run in-process through code_data._cli.main(); the vectors with no flag and with all flags are also run through the real entry point in a subprocess and must agree. Oracle: usage error (exit 2) iff the number of sources != 1; else exit 0, the printed CodeData line textually equals repr() of the API result (normalized unless --no-normalize), the printed JSON loads back to it, --dis/--dis-after listings equal the harness's own dis of the program (opnames and resolved operands).",
+        "rule": "S-CLI completely: presence/absence of each program source {file, -c, -e, -m} (16 combinations: 4 valid, 12 usage errors) x all 2^5 subsets of {--dis, --dis-after, --source, --no-normalize, --json} x 9 programs (empty; two lines; nested functions/closure/class; NaN/inf/-0.0/bytes/surrogate/complex/huge-int/tuple/frozenset constants; 300 constants; non-ASCII; async/comprehension/try/while; lines >255 apart; one-line suites) = 4608 argv vectors per interpreter, each run in-process through code_data._cli.main(); the vectors with no flag and with all flags are also run through the real entry point in a subprocess and must agree. Oracle: usage error (exit 2) iff the number of sources != 1; else exit 0, the printed CodeData line textually equals repr() of the API result (normalized unless --no-normalize), the printed JSON loads back to it, --dis/--dis-after listings equal the harness's own dis of the program (opnames and resolved operands).",
         "assumptions": TRUST + ["the plain-console path is checked (rich is not installed on the producer interpreters)"],
         "required_reach": {"quick": ["usage-error:0-sources", "usage-error:2-sources", "usage-error:4-sources", "prints-api-result:file", "prints-api-result:-c", "prints-api-result:-e", "prints-api-result:-m", "json-ok", "dis-after-ok", "subprocess-agrees"]},
     },
@@ -262,7 +262,7 @@ MANIFEST_TEXT = {
         "technique": "exhaustive operation-history enumeration on shared objects with state snapshots after every step",
     },
     "C16": {
-        "text": "Exhaustive over the argv space S-CLI (all source-option combinations x all output-flag subsets x 8 programs) on each interpreter, in-process and (for the extreme flag sets) through the real entry point; the printed text is compared with the API's own result computed in the same process.",
+        "text": "Exhaustive over the argv space S-CLI (all source-option combinations x all output-flag subsets x 9 programs) on each interpreter, in-process and (for the extreme flag sets) through the real entry point; the printed text is compared with the API's own result computed in the same process.",
         "design_ref": "DESIGN.md section 4 C16",
         "note": BASE_NOTE,
         "technique": "exhaustive enumeration of argument vectors; printed output compared textually with the API result",
